@@ -1,10 +1,13 @@
 package geom
 
+import "math"
+
 // ExactEqualsOption allows the behaviour of the ExactEquals method in the
 // Geometry interface to be modified.
 type ExactEqualsOption func(exactEqualsComparator) exactEqualsComparator
 
 type exactEqualsComparator struct {
+	tolerance   float64
 	toleranceSq float64
 	ignoreOrder bool
 }
@@ -22,6 +25,7 @@ func newExactEqualsComparator(opts []ExactEqualsOption) exactEqualsComparator {
 // within the given euclidean distance of each other.
 func ToleranceXY(within float64) ExactEqualsOption {
 	return func(c exactEqualsComparator) exactEqualsComparator {
+		c.tolerance = within
 		c.toleranceSq = within * within
 		return c
 	}
@@ -31,9 +35,24 @@ func (c exactEqualsComparator) eq(a, b Coordinates) bool {
 	if a.Type != b.Type {
 		return false
 	}
-	asb := a.XY.Sub(b.XY)
-	if asb.lengthSq() > c.toleranceSq {
-		return false
+	if a.XY != b.XY {
+		asb := a.XY.Sub(b.XY)
+		lsq := asb.lengthSq()
+		switch {
+		case c.tolerance == 0:
+			// Without a tolerance the XY values must be identical. The
+			// squared distance can't be relied on for that, because it
+			// underflows to zero for differences smaller than about 1e-162.
+			return false
+		case lsq == 0 || c.toleranceSq == 0 || math.IsInf(lsq, 0):
+			// One of the squares under- or overflowed, so compare the
+			// unsquared values instead.
+			if math.Hypot(asb.X, asb.Y) > c.tolerance {
+				return false
+			}
+		case lsq > c.toleranceSq:
+			return false
+		}
 	}
 	if a.Type.Is3D() && a.Z != b.Z {
 		return false
